@@ -61,6 +61,9 @@ type Decoder struct {
 	p      []byte
 	offset int
 	mode   DecoderMode
+	// the key most recently read by DecodeTag() and the offsets at which it starts and ends
+	tagKey           uint64
+	tagStart, tagEnd int
 }
 
 // NewDecoder initializes a new Protobuf decoder to read the provided buffer.
@@ -138,6 +141,9 @@ func (d *Decoder) DecodeTag() (tag int, wireType WireType, err error) {
 	if n < 1 || v < 1 || (v>>3) > MaxTagValue {
 		return 0, -1, fmt.Errorf("invalid tag value (%d) at byte %d: %w", v, d.offset, ErrInvalidFieldTag)
 	}
+	// remember where the key is so that Skip() can return the complete raw field even if the key was not encoded
+	// in the minimal number of bytes
+	d.tagKey, d.tagStart, d.tagEnd = v, d.offset, d.offset+n
 	d.offset += n
 	return int(v >> 3), WireType(v & 0x7), nil
 }
@@ -926,6 +932,12 @@ func (d *Decoder) Skip(tag int, wt WireType) ([]byte, error) {
 	// account for skipping the first field
 	if bof < 0 {
 		bof = 0
+	}
+	// if DecodeTag() has just read the key of this very field use its actual extent: a key is not necessarily
+	// encoded in the minimal number of bytes
+	if d.tagEnd == d.offset && d.tagStart < d.offset && tag >= 0 && d.tagKey == uint64(tag)<<3|uint64(wt&0x7) {
+		bof = d.tagStart
+		sz = d.offset - bof
 	}
 	// validate that the field we're skipping matches the specified tag and wire type
 	// . skip validation in fast mode
